@@ -242,7 +242,7 @@ pub fn score(query: &TextRef, hit: &mut Hit)
     ensures ({
         let h = *final(hit); let ms = h.rmatches@; let n = ms.len() as int;
         &&& h.title == old(hit).title && h.rating == old(hit).rating && h.id == old(hit).id
-        &&& matches_for_text(ms, &h.title) && matches_ok(ms)
+        &&& matches_for_text(ms, &h.title) && matches_ok(ms) && matches_for_text(h.qmatches@, query) && matches_ok(h.qmatches@)
         &&& h.scores.0[0] == ref_chars(ms, n) && h.scores.0[1] == ref_words(ms, n) && h.scores.0[2] == -ref_tails(ms, n)
         &&& h.scores.0[3] == -ref_trans(ms, n - 1) && h.scores.0[4] == (if n == 0 { 1int } else if ms.last().fin { 1int } else { 0int })
         &&& h.scores.0[5] == -ref_min_offset(ms, n) && h.scores.0[6] == h.rating && h.scores.0[7] == -(h.title.words@.len() as int)
